@@ -54,10 +54,13 @@ def read_tables():
         r = call(A.get_tri_quadratureDG, o)
         if r is not None:
             dG, dW = r
-            if dG.ndim != 2 or dG.shape[1] != 3 or dW.shape != (dG.shape[0],):
+            if dG.ndim != 2 or dG.shape[1] not in (2, 3) or dW.shape != (dG.shape[0],):
                 notes.append(f"get_tri_quadratureDG({o}): unexpected shapes {dG.shape} {dW.shape}")
             else:
-                tri[o] = [(float(g[0]), float(g[1]), float(g[2]), float(w)) for g, w in zip(dG, dW)]
+                # the code reads columns 0 and 1 only (third coordinate = 1 - dA - dB); a stored third column is
+                # carried along for the informational consistency report
+                tri[o] = [(float(g[0]), float(g[1]), float(g[2]) if len(g) > 2 else 1.0 - float(g[0]) - float(g[1]), float(w))
+                          for g, w in zip(dG, dW)]
         r = call(A.get_gauss_quadratureDG, o)
         if r is not None:
             dG, dW = r
